@@ -20,6 +20,7 @@ import ast
 import os
 
 from ..cfg import cfg_of
+from ..dep import data, full
 from ..core import Ctx, key_of
 from ..model import AnchorMissing, Inconclusive, dotted, norm, own_nodes
 from ..order import affine, local_resolver, mono, order_table
@@ -340,9 +341,24 @@ def run(ctx: Ctx):
                "inside: a zero-length interval is returned",
                key="R17.5|collectIntervals|non-empty")
     pd2i = repo.func("Project.dateToIdx")
-    pasg = [x for x in own_nodes(pd2i) if isinstance(x, (ast.Assign, ast.AnnAssign)) and "scheduleGranularity" in norm(x.value) and "diff_seconds" in norm(x.value)]
-    ok = bool(pasg) and all("math.floor(" in norm(x.value) or "//" in norm(x.value) for x in pasg)
-    ctx.ob("R17.2", f"{pd2i.qual}: {norm(pasg[0].value) if pasg else '-'}", pd2i, ok, "index(t) = floor((t - start) / granularity)" if ok else
+    # every division of the elapsed time by the slot length in the Python path is a floor division or sits directly inside floor()
+    fdp = ctx.dep.of(pd2i)
+    res_p = local_resolver(pd2i.node)
+
+    def is_gran(e):
+        if "scheduleGranularity" in norm(e):
+            return True
+        return isinstance(e, ast.Name) and any("scheduleGranularity" in norm(d) for d in res_p(e))
+    pasg = [x for x in own_nodes(pd2i) if isinstance(x, ast.BinOp) and isinstance(x.op, (ast.Div, ast.FloorDiv)) and is_gran(x.right)
+            and f"param:{pd2i.params[1]}" in full(fdp.deps_of(x.left))]
+
+    def floored(x):
+        if isinstance(x.op, ast.FloorDiv):
+            return True
+        par = getattr(x, "_parent", None)
+        return isinstance(par, ast.Call) and norm(par.func) in ("math.floor", "floor") and len(par.args) == 1 and par.args[0] is x
+    ok = bool(pasg) and all(floored(x) for x in pasg)
+    ctx.ob("R17.2", f"{pd2i.qual}: {norm(pasg[0]) if pasg else '-'}", pd2i, ok, "index(t) = floor((t - start) / granularity)" if ok else
            "project time -> index is not a floor: an instant before the project start maps to slot 0",
            key="R17.2|Project.dateToIdx|formula")
     ms = [x for x in own_nodes(ci) if isinstance(x, ast.Assign) and norm(x.targets[0]) == "minDurationSlots" and "int(" in norm(x.value)]
